@@ -114,6 +114,20 @@ func jsonNumericTail(b []byte) (numeric, hasDigit bool) {
 	return i < len(t), hasDigit
 }
 
+// jsonTailAtTopLevel reports whether the numeric tail of b stands outside any
+// open array, object or string: what precedes it is empty or a complete
+// sequence of values for the reference decoder.  Only there is a number
+// prefix such as "1." a (lenient) complete value; "[1." is a cut document.
+func jsonTailAtTopLevel(b []byte) bool {
+	t := bytes.TrimRight(b, " \t\r\n")
+	i := len(t)
+	for i > 0 && strings.IndexByte("+-.eE0123456789", t[i-1]) >= 0 {
+		i--
+	}
+	prefix := bytes.TrimSpace(t[:i])
+	return len(prefix) == 0 || refDecode("json", prefix).Status == ref.OK
+}
+
 type c03Case struct {
 	Codec string   `json:"codec"`
 	Input string   `json:"input_hex"`
@@ -143,7 +157,7 @@ func c03One(c *run.C, cd *codec.Codec, input []byte, how string, eps []int, r *g
 	rr := refDecode(cd.Name, input)
 	truncated := rr.Status == ref.Truncated
 	if truncated && cd.Name == "json" {
-		if numeric, hasDigit := jsonNumericTail(input); numeric && hasDigit {
+		if numeric, hasDigit := jsonNumericTail(input); numeric && hasDigit && jsonTailAtTopLevel(input) {
 			// lenient number forms ("1.", "1e") are not demanded to fail
 			truncated = false
 		}
